@@ -165,6 +165,11 @@ static int encode_special_opd(struct instr *instrc, int m, int i) {
     if ((MODE_MASK & instrc->opd[m].reg) == ext64 ||
         (MODE_MASK & instrc->opd[m].reg) == ext16)
       instrc->hex.rex |= rex_ + rex_b;
+    // memory operand: extended base (any address size) and extended index
+    if (instrc->mem_disp && (instrc->opd[m].reg & REG_RB))
+      instrc->hex.rex |= rex_ + rex_b;
+    if (instrc->mem_disp && (instrc->opd[m].index & REG_RB))
+      instrc->hex.rex |= rex_ + rex_x;
     FAIL_IF(get_reg(instrc, &instrc->opd[m], reg_r));
     instrc->rd_offset = (instrc->opd[m].reg & VALUE_MASK);
     if (instrc->mem_disp)
